@@ -33,7 +33,8 @@ PLANS = {
     "C08": [("mocksim", "asan", "verdict", 40000, 800000), ("mocksim", "asan", "cfront", 6000, 100000)],
     "C10": [("thrsim", "tsi", "threads", 16000, 400000), ("thrsim", "tsi", "locked_misuse", 16000, 300000)],
     "C11": [("runsim", "asan", "process_syn", 160000, 2000000), ("runsim", "plain", "process", 30000, 400000), ("runsim", "noexc", "process_syn", 40000, 400000)],
-    "C14": [("heapsim", "asan", "diagnostics", 50000, 1000000), ("heapsim", "noguard", "diagnostics", 20000, 300000), ("heapsim", "asan", "accounting", 10000, 200000), ("runsim", "asan", "leaks", 16000, 300000)],
+    "C14": [("heapsim", "asan", "diagnostics", 50000, 1000000), ("heapsim", "noguard", "diagnostics", 20000, 300000), ("heapsim", "asan", "accounting", 10000, 200000), ("runsim", "asan", "leaks", 16000, 300000),
+            ("runsim", "asan", "lifecycle", 30000, 400000)],      # failing string comparisons whose operands print alike, hold control characters and bytes above 0x7f, are empty or long: the scans for the first difference under ASan, the position and the rendering
     "C15": [("heapsim", "asan", "oom", 600000, 6000000), ("heapsim", "noguard", "oom", 200000, 2000000)],
     "C16": [("runsim", "asan", "junit", 60000, 800000), ("runsim", "noexc", "junit", 30000, 200000)],
     "C17": [("runsim", "asan", "pointers", 80000, 1500000), ("runsim", "noexc", "pointers", 40000, 500000), ("runsim", "asan", "lifecycle", 20000, 300000)],
